@@ -6,6 +6,7 @@ from functools import update_wrapper
 from io import StringIO
 from itertools import chain
 from keyword import iskeyword as is_python_keyword
+from math import isfinite
 
 from markupsafe import escape
 from markupsafe import Markup
@@ -1667,7 +1668,12 @@ class CodeGenerator(NodeVisitor):
     def visit_Const(self, node: nodes.Const, frame: Frame) -> None:
         val = node.as_const(frame.eval_ctx)
         if isinstance(val, float):
-            self.write(str(val))
+            if isfinite(val):
+                self.write(str(val))
+            else:
+                # inf and nan have no literal spelling, str() would name
+                # an undefined variable in the generated code
+                self.write(f"float({str(val)!r})")
         else:
             self.write(repr(val))
 
